@@ -27,6 +27,19 @@ import ast
 import copy
 
 
+# a helper is found by its name at syntactic call sites: a name that is also
+# a method of the built-in containers / strings / files cannot be told from
+# ``some_set.add(x)`` and is never folded
+_BUILTIN_METHODS = set()
+for _t in (list, dict, set, frozenset, str, bytes, tuple, int, float,
+           object):
+    _BUILTIN_METHODS |= {n for n in dir(_t) if not n.startswith('__')}
+_BUILTIN_METHODS |= {'read', 'write', 'close', 'readline', 'readlines',
+                     'flush', 'seek', 'acquire', 'release', 'put',
+                     'hexdigest', 'digest', 'info', 'error', 'warning',
+                     'debug', 'exception', 'name', 'value'}
+
+
 def _is_private(name):
     return name.startswith('_') and not (name.startswith('__') and
                                          name.endswith('__'))
@@ -559,7 +572,7 @@ def _inline_context_managers(modules, canon, renamed_new_names, K, report):
         count[fn.name] = count.get(fn.name, 0) + 1
     for mod, cls, fn, q in cands:
         if q in canon or q in renamed_new_names or count[fn.name] != 1 or \
-                not _cm_inlinable(fn):
+                not _cm_inlinable(fn) or fn.name in _BUILTIN_METHODS:
             continue
         is_static = cls is None or any(
             isinstance(d, ast.Name) and d.id == 'staticmethod'
@@ -692,7 +705,7 @@ def deextract(modules, canon, renamed_new_names, api_classes=()):
                 cls is not None and cls.name not in api_classes and
                 not dunder)
             if q in canon or q in renamed_new_names or not internal or \
-                    not _inlinable(fn):
+                    not _inlinable(fn) or fn.name in _BUILTIN_METHODS:
                 continue
             ambiguous = count[fn.name] != 1
             if ambiguous and cls is None:
@@ -853,7 +866,7 @@ def _inline_expression_helpers(modules, canon, renamed_new_names,
         internal = _is_private(fn.name) or (
             cls is not None and cls.name not in api_classes and not dunder)
         if q in canon or q in renamed_new_names or not internal or \
-                count[fn.name] != 1:
+                count[fn.name] != 1 or fn.name in _BUILTIN_METHODS:
             continue
         expr = _expr_helper(fn)
         if expr is None:
